@@ -41,6 +41,9 @@ def main():
     if rebased:
         patch = os.path.join(src, rebased[-1])
     demo = os.path.join(src, "demo.py")
+    if os.path.exists(os.path.join(src, "demo.rebased.py")):
+        # a repair changed what the original demonstration relies on (e.g. it suspended a thread where a lock is now held)
+        demo = os.path.join(src, "demo.rebased.py")
     meta = json.load(open(os.path.join(src, "meta.json"))) if os.path.exists(os.path.join(src, "meta.json")) else {}
     wt = "/tmp/v/%s" % sid
     ran = []
